@@ -100,6 +100,43 @@ pub mod c17 {
     slice_harness!(t_slice_9, 9);
     slice_harness!(t_slice_10, 10);
 
+    /// long slices: append == the in-order byte fold (any lane/chunk arithmetic inside append must agree),
+    /// delete undoes it. The reference is the sequential wrapping fold, so for a byte-at-a-time
+    /// implementation both sides are the same expression and the SAT back end answers at once.
+    macro_rules! long_slice_harness {
+        ($name:ident, $n:expr, $unw:expr) => {
+            #[kani::proof]
+            #[kani::unwind($unw)]
+            pub fn $name() {
+                let s: u8 = kani::any();
+                let data: [u8; $n] = kani::any();
+                let mut c = state(s);
+                c.append(&data);
+                let raw1 = c.raw_value();
+                let mut d = state(s);
+                d.delete(&data);
+                let raw2 = d.raw_value();
+                let mut f = s;
+                let mut g = s;
+                let mut i = 0;
+                while i < $n {
+                    f = f.wrapping_add(data[i]);
+                    g = g.wrapping_sub(data[i]);
+                    i += 1;
+                }
+                verdicts! {
+                    "C17: append(long slice) == sum of its bytes mod 256": raw1 == f,
+                    "C17: delete(long slice) == minus the sum of its bytes mod 256": raw2 == g,
+                }
+                kani::cover!(true, "REACHED");
+            }
+        };
+    }
+    long_slice_harness!(q_slice_64, 64, 70);
+    long_slice_harness!(q_slice_260, 260, 270);
+    long_slice_harness!(t_slice_1100, 1100, 1110);
+    long_slice_harness!(t_slice_4200, 4200, 4210);
+
     #[kani::proof]
     #[kani::unwind(12)]
     #[kani::solver(z3)]
